@@ -35,7 +35,7 @@ def corpus():
 
 
 def generate(rng, tier):
-    n = 3000 if tier == "quick" else 100000
+    n = 6000 if tier == "quick" else 100000
     cases = []
     for i in range(n):
         items = sltgen.gen_script(rng)
